@@ -113,3 +113,74 @@ func mutateThenRecode(c *mc.Ctx) {
 		c.Require("mutator/"+m.name, 8)
 	}
 }
+
+// decodeThenRecode: recodings of a scalar OBJECT after every byte-taking way of giving it a value, on the complete
+// top-byte domain (all 256 values of byte 31, i.e. every combination of bit 255, the clamping bits and the range of
+// the top radix-16 / radix-2^w digit) x four bodies x three previous receiver values.  Whatever the call did - succeeded,
+// reduced, or rejected its input - the object must afterwards hold a value below 2^255 (the only values the API
+// documents: SetBits keeps the low 255 bits, the reducing decoders return a residue, the canonical decoders reject),
+// and every recoding must represent exactly that value with digits in range.  Added after seeded changes that left the
+// raw 256-bit input in the receiver of a rejecting decoder, and that skipped the reduction for top bytes 0x80..0x8f.
+func decodeThenRecode(c *mc.Ctx) {
+	type dec struct {
+		name string
+		f    func(s *scalar.Scalar, bb []byte)
+	}
+	decs := []dec{
+		{"SetBits", func(s *scalar.Scalar, bb []byte) { s.SetBits(bb) }},
+		{"SetBytesModOrder", func(s *scalar.Scalar, bb []byte) { s.SetBytesModOrder(bb) }},
+		{"SetBytesModOrderWide(lo)", func(s *scalar.Scalar, bb []byte) { s.SetBytesModOrderWide(append(append([]byte{}, bb...), make([]byte, 32)...)) }},
+		{"SetBytesModOrderWide(hi)", func(s *scalar.Scalar, bb []byte) { s.SetBytesModOrderWide(append(make([]byte, 32), bb...)) }},
+		{"SetCanonicalBytes", func(s *scalar.Scalar, bb []byte) { s.SetCanonicalBytes(bb) }},
+		{"UnmarshalBinary", func(s *scalar.Scalar, bb []byte) { s.UnmarshalBinary(bb) }},
+		{"SetRandom", func(s *scalar.Scalar, bb []byte) { s.SetRandom(bytes.NewReader(append(append([]byte{}, bb...), bb...))) }},
+		{"NewFromBits", func(s *scalar.Scalar, bb []byte) {
+			if t, err := scalar.NewFromBits(bb); err == nil {
+				*s = *t
+			}
+		}},
+		{"NewFromBytesModOrder", func(s *scalar.Scalar, bb []byte) {
+			if t, err := scalar.NewFromBytesModOrder(bb); err == nil {
+				*s = *t
+			}
+		}},
+		{"NewFromCanonicalBytes", func(s *scalar.Scalar, bb []byte) {
+			if t, err := scalar.NewFromCanonicalBytes(bb); err == nil {
+				*s = *t
+			}
+		}},
+	}
+	lBody := ref.LE32(ref.L)
+	bodies := [][]byte{make([]byte, 32), bytes.Repeat([]byte{0xff}, 32), mc.Bytes(c.Seed, "c17dec", 0, 32), lBody}
+	clamped := new(big.Int).SetBytes(mc.Bytes(c.Seed, "c17dec", 1, 32))
+	clamped.SetBit(clamped, 255, 0)
+	clamped.SetBit(clamped, 254, 1)
+	prev := []*big.Int{big.NewInt(0), clamped, new(big.Int).Sub(new(big.Int).Lsh(big.NewInt(1), 255), big.NewInt(1))}
+	two255 := new(big.Int).Lsh(big.NewInt(1), 255)
+	n := len(decs) * 256 * len(bodies) * len(prev)
+	c.Par("decode-then-recode", n, func(w *mc.W, i int) {
+		d := &decs[i%len(decs)]
+		top := (i / len(decs)) % 256
+		body := bodies[(i/len(decs)/256)%len(bodies)]
+		a := prev[i/len(decs)/256/len(bodies)]
+		bb := append([]byte{}, body...)
+		bb[31] = byte(top)
+		in := append([]byte{}, bb...)
+		s := sc(a)
+		d.f(s, bb)
+		now := valueOf(s)
+		w.Eval("decoder/"+d.name, top >= 0x80 || now.Cmp(a) != 0)
+		cas := map[string]string{"decoder": d.name, "input": fmt.Sprintf("%x", in), "previous": a.Text(16)}
+		if !bytes.Equal(bb, in) {
+			w.Fail("Scalar."+d.name+"/input-modified", fmt.Sprintf("%s wrote to its input %x", d.name, in), cas)
+		}
+		if now.Cmp(two255) >= 0 {
+			w.Fail("Scalar."+d.name+"/value-out-of-range", fmt.Sprintf("after %s(%x) on a scalar holding %x the object holds %x (bit 255 set): the recoders' digit bounds assume a value below 2^255", d.name, in, a, now), cas)
+			return
+		}
+		checkOn(w, s, now)
+	})
+	for _, d := range decs {
+		c.Require("decoder/"+d.name, 256)
+	}
+}
